@@ -172,7 +172,9 @@ fn seeded_case(r: &mut Prng, big: bool) -> Case {
             let k = *r.pick(&DKINDS);
             let name = if k.named() { r.pick(&NAMES).to_string() } else { String::new() };
             let id = match r.below(12) {
-                0 | 1 => REENTRANT_DESC + next_id,
+                0 => REENTRANT_DESC + next_id,
+                // a descriptor that REGISTERS a descriptor and then describes a node it applies to
+                1 => REG_DESC + next_id,
                 // a descriptor may render its node as the empty string
                 2 => EMPTY_DESC + next_id,
                 // a descriptor that describes a tree containing (possibly) its own key, limiting its own recursion
@@ -185,7 +187,14 @@ fn seeded_case(r: &mut Prng, big: bool) -> Case {
             next_id += 1;
         } else {
             let op = Op::Describe { prog: r.pick(&progs).clone() };
-            c.pre.push(if r.chance(1, 8) { Op::OnThread { ops: vec![op] } } else { op });
+            // ... and every other one of those once more while that thread ENDS (from the destructor of a
+            // thread-local of the caller, destroyed before or after whatever the engine keeps per thread)
+            let n = c.pre.len();
+            c.pre.push(if r.chance(1, 8) {
+                if n % 2 == 0 { Op::OnThreadExit { ops: vec![op], late: n % 4 == 0 } } else { Op::OnThread { ops: vec![op] } }
+            } else {
+                op
+            });
         }
     }
     if r.chance(1, 3) {
@@ -283,7 +292,7 @@ impl Prop for C18 {
                 "descriptor registration is reachable only through the cfg-guarded verif_hooks re-export of DescriptorManager",
                 "the reference describe() walks the harness's own tree; literal rendering is expr()'s (numbers as written, strings in double quotes)",
             ],
-            fault_kinds: &["fresh_process", "register_before_first_use", "reenter_describe", "preempt_in_call"],
+            fault_kinds: &["fresh_process", "register_before_first_use", "reenter_describe", "preempt_in_call", "thread_teardown"],
             probes: &["single_registrations_run", "binary_descriptor_used", "lookalike_name_other_kind", "re_registration", "concurrent_registrations", "same_symbol_prefix_and_postfix", "operation_on_another_thread", "describe_races_reregistration", "manager_handle_kept_across_describe", "long_registration_history"],
         }
     }
@@ -364,7 +373,7 @@ impl Prop for C18 {
         let mut seen = std::collections::BTreeSet::new();
         let mut nontrivial = false;
         let flat: Vec<&Op> = case.pre.iter().flat_map(|o| match o {
-            Op::OnThread { ops } => ops.iter().collect::<Vec<_>>(),
+            Op::OnThread { ops } | Op::OnThreadExit { ops, .. } => ops.iter().collect::<Vec<_>>(),
             Op::WithManager { then, .. } => {
                 rt.probe("manager_handle_kept_across_describe");
                 then.iter().collect::<Vec<_>>()
@@ -374,8 +383,11 @@ impl Prop for C18 {
         if case.tag.ends_with("long-registration-history") {
             rt.probe("long_registration_history");
         }
-        if case.pre.iter().any(|o| matches!(o, Op::OnThread { .. })) {
+        if case.pre.iter().any(|o| matches!(o, Op::OnThread { .. } | Op::OnThreadExit { .. })) {
             rt.probe("operation_on_another_thread");
+        }
+        if case.pre.iter().any(|o| matches!(o, Op::OnThreadExit { .. })) {
+            rt.fired("thread_teardown", 1);
         }
         for op in flat {
             match op {
